@@ -205,7 +205,9 @@ func (server *SugarDB) handleCommand(ctx context.Context, message []byte, conn *
 			verifhook.Point("cmd.executed")
 			// Log the command under the database it was executed in (for embedded calls there is no
 			// TCP connection to look the database up from).
-			server.aofEngine.LogCommand(ctx.Value("Database").(int), message)
+			if entry := server.aofLogEntry(ctx, cmd, res, message); entry != nil {
+				server.aofEngine.LogCommand(ctx.Value("Database").(int), entry)
+			}
 		}
 
 		server.stateMutationInProgress.Store(false)
